@@ -10,11 +10,13 @@ import (
 // ---------- name pools ----------
 
 var typePool = []string{"user", "group", "doc", "folder", "org", "team", "employee", "type", "model", "schema", "relation", "module", "extend",
-	"a.b", "x/y", "p-q", "t_1", "_t", "Doc2", "ns/sub.item-1", "self"}
+	"a.b", "x/y", "p-q", "t_1", "_t", "Doc2", "doc2", "ns/sub.item-1", "self"}
 var relPool = []string{"viewer", "editor", "owner", "member", "parent", "admin", "viewer_all", "view", "can_view", "type", "model", "schema",
-	"relation", "module", "extend", "r.s", "u/v", "w-x", "_r", "R9", "define_x", "from_y", "organ", "andy", "butter"}
-var condPool = []string{"c", "cc", "cond", "is_valid", "in_range", "non_expired", "C-1", "_c"}
-var paramPool = []string{"x", "y", "ip", "ts", "user_ip", "n", "allowed", "P1", "_p"}
+	"relation", "module", "extend", "r.s", "u/v", "w-x", "_r", "R9", "define_x", "from_y", "organ", "andy", "butter",
+	// names that differ only in letter case, and a name that is a prefix of another continued by a digit or '-'
+	"Viewer", "VIEWER", "Owner", "view2", "view-all"}
+var condPool = []string{"c", "cc", "cond", "is_valid", "in_range", "non_expired", "C-1", "_c", "Cond", "isOwner", "isowner", "c2", "c-1"}
+var paramPool = []string{"x", "y", "ip", "ts", "user_ip", "n", "allowed", "P1", "_p", "x1", "x-1", "ip2", "IP", "p1", "N"}
 var paramTypes = []string{"bool", "string", "int", "uint", "double", "duration", "timestamp", "ipaddress"}
 var exprPool = []string{
 	"x < 100", "x == y", "x != \"a b\" && y", "ip.in_cidr(\"10.0.0.0/8\")", "ts + duration(\"1h\") >= now || !(x)", "n in [1, 2, 3]",
